@@ -8,4 +8,5 @@ CONSTANTS
   RejectTrailing = TRUE
   ValidateFiles = FALSE
   CompressionTransparent = TRUE
+  ZeroCRCCompared = TRUE
 INVARIANTS SinkAcceptedIsSource
